@@ -361,3 +361,30 @@ def z3(*args):
 
 
 ZFUNCS = [z1, z2, z3]
+
+
+# the decorated callable is a BUILTIN that publishes no signature (getattr): klepto cannot inspect it and keys the call by its
+# positional arguments.  getattr(Probe(x), 'val') is evaluated in Probe.__getattr__, which is the stub's body
+class Probe(object):
+    def __init__(self, x):
+        self.x = x
+
+    def __getattr__(self, name):          # (only reached for attributes that do not exist)
+        if name != 'val':
+            raise AttributeError(name)
+        return _body('getattr', self.__dict__['x'], 0)
+
+    def __eq__(self, other):
+        return type(other) is Probe and other.__dict__['x'] == self.__dict__['x']
+
+    def __ne__(self, other):
+        return not self.__eq__(other)
+
+    def __hash__(self):
+        return hash(('Probe', self.__dict__['x']))
+
+    def __repr__(self):
+        return 'Probe(%r)' % (self.__dict__['x'],)
+
+
+UFUNCS = [getattr, getattr, getattr]
